@@ -108,4 +108,4 @@ Example C10_series_hypotheses_hold :
   let env := [of_bits 4602678819172646912; of_bits 4609434218613702656; of_bits 13835058055282163712; of_bits 4598175219545276416;
               of_bits 4613937818241073152; of_bits 13842939354630062080; of_bits 4608308318706860032; xh] in
   flt (of_bits 13833752011390226268) xh && flt xh (of_bits 4610425010531724165) = true /\ safe env e_series.
-Proof. cbv zeta. split; [vm_compute; reflexivity|apply safeb_sound; vm_compute; reflexivity]. Qed.
+Proof. cbv zeta. split; [vm_compute; reflexivity|apply safe1_sound; vm_compute; reflexivity]. Qed.
